@@ -144,6 +144,13 @@ func c20Api(r *rng, id string) {
 		wg.Wait()
 	}
 	par(1+r.intn(3), 6)
+	if plan >= 1 && r.chance(1, 2) {
+		// Leave runs to completion while UpdateNode(0) is inside the delegate's NodeMeta callback
+		stages = append(stages, "leave-during-update")
+		leftCalled = true
+		sut.onNodeMeta = func() { m.Leave(time.Second) }
+		call("UpdateNode", 30*time.Second, func() string { return errS(m.UpdateNode(0)) })
+	}
 	if plan >= 1 {
 		stages = append(stages, "left")
 		leftCalled = true
